@@ -48,7 +48,7 @@ inductive SessionVia (s : State) (cred : Cred) (cookie : Option String) (allowCr
     (id : String) (σ : SessionRec) (c : Option String) : Prop where
   | password (u p : String) (usr : UserRec)
       (hcred : cred = .form u p) (hallow : allowCred = true) (hu : u ≠ "")
-      (huser : s.store.users.get u = some usr) (hpw : usr.hash = some p)
+      (huser : s.store.users.get u = some usr) (hvalid : validPw p = true) (hpw : usr.hash = some p)
       (hσ : σ = ⟨u, usr.profile, s.now + sessionMaxAge⟩) (hc : c = some id)
   | cookie (hcookie : cookie = some id) (hstored : s.store.sessions.get id = some σ)
       (hfresh : ¬ s.now > σ.expire) (hc : c = none)
@@ -91,7 +91,7 @@ theorem getSession_session (s : State) (fs : List Fault) (cred : Cred) (cookie :
         split at h
         · simp only [Prod.mk.injEq, SessRes.session.injEq] at h
           obtain ⟨_, _, hid, hσ, hc⟩ := h
-          exact .password u p usr hcred.1 hcred.2.1 hcred.2.2 (storeGet_found _ _ _ _ hg) hpw
+          exact .password u p usr hcred.1 hcred.2.1 hcred.2.2 (storeGet_found _ _ _ _ hg) hpw.1 hpw.2
             (by rw [← hσ]) (by rw [← hc, hid])
         · simp at h
       · simp at h
